@@ -18,6 +18,7 @@ static ACTIVE: AtomicBool = AtomicBool::new(false);
 /// Probability (in 1/65536 units) that a "hot" scheduling point (object header word
 /// operations, one per marked object) is turned into a real scheduling point.
 static HOT_RATE: AtomicU64 = AtomicU64::new(0);
+static HOT_RATE_SWEEP: AtomicU64 = AtomicU64::new(0);
 static HOT_STATE: AtomicU64 = AtomicU64::new(0x9e37_79b9_7f4a_7c15);
 
 pub static STAT_POINTS: AtomicU64 = AtomicU64::new(0);
@@ -34,8 +35,13 @@ pub fn is_active() -> bool {
     ACTIVE.load(Ordering::Relaxed)
 }
 
+pub fn set_hot_rate_sweep(rate_per_65536: u64) {
+    HOT_RATE_SWEEP.store(rate_per_65536, Ordering::Relaxed);
+}
+
 pub fn set_hot_rate(rate_per_65536: u64, seed: u64) {
     HOT_RATE.store(rate_per_65536, Ordering::Relaxed);
+    HOT_RATE_SWEEP.store(rate_per_65536, Ordering::Relaxed);
     HOT_STATE.store(seed | 1, Ordering::Relaxed);
 }
 
@@ -54,7 +60,9 @@ pub fn sched_point() {
 #[inline]
 pub fn sched_point_hot() {
     if ACTIVE.load(Ordering::Relaxed) {
-        let rate = HOT_RATE.load(Ordering::Relaxed);
+        // cooperative fault point: while the concurrent sweeper runs, header-word stores of
+        // mutators and sweeper race - use the (usually much higher) `hotsweep` rate there
+        let rate = if monitor::SWEEP_ACTIVE.load(Ordering::Relaxed) { HOT_RATE_SWEEP.load(Ordering::Relaxed) } else { HOT_RATE.load(Ordering::Relaxed) };
         STAT_HOT_POINTS.fetch_add(1, Ordering::Relaxed);
         if rate == 0 {
             return;
